@@ -58,7 +58,8 @@ def flood(sock, stop):
         # so the node's receive side never runs dry, whatever the thread scheduling on this side
         sock.settimeout(BOUND + 3)
         try:
-            sock.sendall(rp * 400000)
+            # (every 50th PDU is of an unrecognised type: AA-7 in Sta13, the others AA-6 - neither may prolong the wait)
+            sock.sendall((rp * 49 + b"\x09\x00\x00\x00\x00\x00") * 8000)
         except OSError:
             pass
     threading.Thread(target=run, daemon=True).start()
